@@ -267,6 +267,7 @@ PROFILES = {
     # threads that rebuild existing outputs (each moves an old output aside), often followed by a rollback
     'threadsrb': {'threads_rb': True},
     'threadsswap': {'threads_swap': True},
+    'linkstale': {'linkstale': True},
     'threadsqdep': {'threads_qdep': True},
     # the same histories with a yield point at every executed line of the library's small shared data structures
     'threadsrbl': {'threads_rb': True, 'line_trace': ['file_backups.py', 'build_dirs.py', 'cache.py']},
@@ -782,6 +783,34 @@ def make_threads_qdep(seed, profile):
             'steps': steps, 'combo': True, 'qdep_triples': PROFILES[profile].get('qdep_triples', 600)}
 
 
+def make_linkstale(seed, profile):
+    """A symbolic link, planted between two builds, that points at an output of the previous build (C01 / C04,
+    open finding KF-link-to-stale-output): from scratch the output is gone and the link points at nothing, so every
+    query through it answers "absent".  The snapshot reports such a link as a pin (projection rule `alias_pins`);
+    the output is not rebuilt in the builds that look through the link."""
+    rnd = random.Random('linkstale:%s' % seed)
+    T = rnd.choice([['x'], ['d', 'x'], ['d', 'e', 'z'], ['g', 'w']])
+    L = rnd.choice([['lnk'], ['d', 'lnk'], ['zz', 'lnk']])
+    kinds = rnd.sample(['is_file', 'exists', 'read', 'get_size', 'is_dir'], rnd.choice([2, 3, 4]))
+    qs = []
+    for k in kinds:
+        q = {'s': 'q', 'kind': k, 'p': L}
+        if k == 'read':
+            q.update(cmp=rnd.choice(['METADATA', 'HASH']), how=rnd.choice(['declare', 'binary']))
+        qs.append(q)
+    prog = {'fW': W_, 'fQ': qs + [{'s': 'return'}]}
+    steps = [{'op': 'build', 'name': 'B', 'vers': {}, 'root': [
+        {'s': 'bf', 'p': T, 'f': 'fW', 'args': [1], 'cmp': rnd.choice(['METADATA', 'HASH']), 'catch': True}, {'s': 'return'}]},
+        {'op': 'ext', 'do': 'linkto', 'p': L, 'to': T}]
+    look = [{'s': 'sb', 'f': 'fQ', 'args': [0], 'catch': True}] if rnd.random() < 0.5 else [dict(q) for q in qs]
+    for _ in range(rnd.choice([1, 2])):
+        steps.append({'op': 'build', 'name': 'B', 'vers': {}, 'root': look + [{'s': 'return'}]})
+    if rnd.random() < 0.5:
+        steps.append({'op': 'clean', 'name': 'B'})
+    return {'id': '%s-%d' % (profile, seed), 'cache': ['k'], 'universe': [], 'prog': prog, 'steps': steps,
+            'alias_pins': True, 'kf_family': 'KF-link-to-stale-output'}
+
+
 def make_threads_q(seed, profile):
     """Concurrent calls *and queries* (C09): thread functions look at paths whose answer cannot depend on the
     other threads - a foreign area nobody builds in, the stale directories of the previous build that nobody
@@ -1257,6 +1286,8 @@ def make_scenario(seed, profile='general'):
         return make_straggler(seed, profile)
     if P.get('threads_rb'):
         return make_threads_rb(seed, profile)
+    if P.get('linkstale'):
+        return make_linkstale(seed, profile)
     if P.get('threads_swap'):
         return make_threads_swap(seed, profile)
     if P.get('threads_qdep'):
